@@ -142,7 +142,7 @@ def source_hash(crate):
 
 
 def cache_key(h, tier):
-    blob = json.dumps({k: h[k] for k in sorted(h) if k not in ("obligation", "functions", "bounds", "props", "panic_props", "tier")}, sort_keys=True)
+    blob = json.dumps({k: h[k] for k in sorted(h) if k not in ("obligation", "functions", "bounds", "props", "panic_props", "tier", "replay_harness")}, sort_keys=True)
     return hashlib.sha256((source_hash(h["crate"]) + blob + "kani-0.68.0").encode()).hexdigest()[:32]
 
 
@@ -173,11 +173,16 @@ def kani_cmd(h, slot, extra=()):
     return cmd, crate["cwd"]
 
 
-def kani_env(harness_dir=HARNESS_DIR):
+def kani_env(harness_dir=HARNESS_DIR, focus=None):
     env = dict(os.environ)
     env["PROFIRUST_VERIF_HARNESS"] = harness_dir
     env["CARGO_NET_OFFLINE"] = "true"
     env.pop("RUSTFLAGS", None)
+    # VERIF_FOCUS=<property> compiles the harnesses with the oracle assertions of all OTHER
+    # properties switched off (support.rs, vassert!); only set for focused re-runs
+    env.pop("VERIF_FOCUS", None)
+    if focus:
+        env["VERIF_FOCUS"] = focus
     return env
 
 
@@ -216,10 +221,13 @@ def parse_kani(out):
     return res
 
 
-def run_harness(h, tier, use_cache=True, extra=(), log_suffix=""):
+def run_harness(h, tier, use_cache=True, extra=(), log_suffix="", focus=None):
     """Run one harness; returns result dict."""
     key = cache_key(h, tier)
     cpath = os.path.join(CACHE, "results", key + ".json")
+    if focus:
+        use_cache = False
+        log_suffix += ".focus-" + focus
     if use_cache and not extra and os.path.exists(cpath):
         with open(cpath) as f:
             r = json.load(f)
@@ -236,7 +244,7 @@ def run_harness(h, tier, use_cache=True, extra=(), log_suffix=""):
         t0 = time.time()
         timed_out = False
         with open(logp, "w") as lf:
-            p = subprocess.Popen(cmd, cwd=cwd, env=kani_env(), stdout=lf, stderr=subprocess.STDOUT,
+            p = subprocess.Popen(cmd, cwd=cwd, env=kani_env(focus=focus), stdout=lf, stderr=subprocess.STDOUT,
                                  preexec_fn=limit_mem(48 if extra else max(16, h["mem_gb"] * 1.25)))
             try:
                 p.wait(timeout=h["timeout_s"] * (3 if extra else 1))
@@ -255,7 +263,9 @@ def run_harness(h, tier, use_cache=True, extra=(), log_suffix=""):
     r = parse_kani(out)
     r.update({"harness": h["name"], "wall_s": round(wall, 1), "timed_out": timed_out, "rc": p.returncode,
               "log": logp, "reused": False, "cmd": " ".join(cmd), "at": time.strftime("%Y-%m-%dT%H:%M:%S")})
-    if not extra and not timed_out and r["verdict"] is not None and not r["oom"]:
+    if focus:
+        r["focus"] = focus
+    if not extra and not focus and not timed_out and r["verdict"] is not None and not r["oom"]:
         os.makedirs(os.path.dirname(cpath), exist_ok=True)
         with open(cpath, "w") as f:
             json.dump(r, f)
@@ -357,17 +367,32 @@ def replay_hang(h, prop):
     return run_replay_file(path)
 
 
-def replay_native(h, prop, wanted=None, tests=None):
+def replay_native(h, prop, wanted=None, tests=None, focus=None):
     """Obtain concrete playback tests for harness h and run them natively.
     Returns (reproduced: bool, path, details)."""
     os.makedirs(os.path.join(REPLAYS, prop), exist_ok=True)
+    if tests is None and h.get("replay_harness") and not h.get("_is_twin"):
+        # station step harnesses: derive the counterexample on the replay twin first (precise
+        # reference ring over a small consistent LAS; its stubs draw no nondeterministic values, so
+        # the playback lines up with the native run of the real TokenRing)
+        twin = dict(h, name=h["replay_harness"], _is_twin=True)
+        ok, tpath, det = replay_native(twin, prop, wanted=wanted, focus=focus)
+        if ok:
+            return ok, tpath, "via replay twin %s: %s" % (twin["name"], det)
+        say("    (replay twin %s of %s gave no native reproduction: %s; falling back to the harness's own playback)" % (twin["name"], h["name"], det[:300]))
     path = os.path.join(REPLAYS, prop, h["name"] + ".rs")
     if tests is None:
         r = run_harness(h, "replay", use_cache=False,
-                        extra=["-Z", "concrete-playback", "--concrete-playback=print"], log_suffix=".playback")
+                        extra=["-Z", "concrete-playback", "--concrete-playback=print"], log_suffix=".playback", focus=focus)
         with open(r["log"], errors="replace") as f:
             out = f.read()
         found = [(kind, desc, body, name) for kind, desc, body, name in PLAYBACK_RE.findall(out) if kind != "cover"]
+        if h.get("_is_twin"):
+            # only failures of THIS property (or unlabelled crate panics) count on the twin
+            def _mine(desc):
+                m = LABEL_RE.match(desc.strip('"'))
+                return (prop in m.group(1).split("+")) if m else (prop in h["panic_props"])
+            found = [t for t in found if _mine(t[1])]
         if wanted:
             found = [t for t in found if any(t[1] == w or t[1] in w or w in t[1] for w in wanted)] or found
         # one test per distinct failing description, at most 6
@@ -384,6 +409,8 @@ def replay_native(h, prop, wanted=None, tests=None):
     with open(path, "w") as f:
         f.write("// native replay for harness %s (property %s), crate %s, file %s\n" % (h["name"], prop, h["crate"], h["file"]))
         f.write("// re-run: /verif/check.py --replay %s\n" % path)
+        if focus:
+            f.write("// focus %s\n" % focus)
         f.write(body + "\n")
     return run_replay_file(path)
 
@@ -402,6 +429,8 @@ def run_replay_file(path):
     hang = re.search(r"^// hang_test (\w+)", txt, re.M)
     if hang:
         names = [hang.group(1)]
+    fm = re.search(r"^// focus (C\d+)", txt, re.M)
+    focus = fm.group(1) if fm else None
     witness = re.search(r"^// witness_test (\w+)", txt, re.M)
     if witness:
         names = [witness.group(1)]
@@ -412,7 +441,7 @@ def run_replay_file(path):
         with open(os.path.join(scratch, "harness", hfile), "a") as f:
             f.write("\n" + "\n".join(l for l in txt.splitlines() if not l.startswith("// ")) + "\n")
         cwd = REPO
-        env = kani_env(os.path.join(scratch, "harness"))
+        env = kani_env(os.path.join(scratch, "harness"), focus=focus)
     else:
         src = CRATES[crate]["cwd"]
         shutil.copytree(src, os.path.join(scratch, "crate"), ignore=shutil.ignore_patterns("target"))
@@ -540,6 +569,32 @@ def check_property(prop, tier, only=None, jobs=None, use_cache=True, do_replay=T
                                                 r["wall_s"], " (reused)" if r["reused"] else ""))
 
     violations, known_hits, inconcl, notes = [], [], [], []
+    # Masked assertions: Kani's assert is check-then-assume, so a harness that fails ONLY under the
+    # label of another property has not checked this property's assertions on the paths behind
+    # that failure.  Such a harness is re-run compiled with VERIF_FOCUS=<this property> (the other
+    # properties' oracle assertions switched off); the focused result replaces the masked one.
+    def _masked(h, r):
+        fails, _, inc = classify(h, r)
+        return (not inc) and any(prop not in f["props"] for f in fails) and not any(prop in f["props"] for f in fails)
+    masked = [(h, r) for h, r in results if h["crate"] == "profirust" and _masked(h, r)]
+    if masked:
+        def fjob(hr):
+            h, r = hr
+            w = min(cap, h["weight"])
+            for _ in range(w):
+                budget.acquire()
+            try:
+                return h, r, run_harness(h, tier, use_cache=False, focus=prop)
+            finally:
+                for _ in range(w):
+                    budget.release()
+        with cf.ThreadPoolExecutor(max_workers=jobs) as ex:
+            for h, r, r2 in ex.map(fjob, masked):
+                labels = sorted(set(f["label"] for f in classify(h, r)[0] if prop not in f["props"]))
+                say("  [%s] %-44s %-10s %6.1fs (re-run with focus on %s: failed only under %s)" % (
+                    prop, h["name"], r2["verdict"] or ("TIMEOUT" if r2["timed_out"] else "ERROR"), r2["wall_s"], prop, ", ".join(labels)))
+                notes.append("%s: failed only under other properties' labels (%s); re-run with VERIF_FOCUS=%s -> %s" % (h["name"], ", ".join(labels), prop, r2["verdict"]))
+                results[[i for i, (hh, _) in enumerate(results) if hh is h][0]] = (h, r2)
     # reachability witnesses are judged per property run: a cover that sits in an oracle function
     # shared by several harnesses (e.g. one per slot occupancy pattern) must be satisfied in at
     # least one of them; every harness must still have at least one satisfied cover of its own
@@ -593,6 +648,8 @@ def check_property(prop, tier, only=None, jobs=None, use_cache=True, do_replay=T
                   "functions": h.get("functions", []), "stubs": h.get("stubs", []), "verdict": r["verdict"],
                   "wall_s": r["wall_s"], "solver_s": r["solver_s"], "cbmc_checks": len(r["checks"]),
                   "reused_result": r["reused"], "cmd": r["cmd"]}
+        if r.get("focus"):
+            sample["focused_rerun"] = "compiled with VERIF_FOCUS=%s: oracle assertions labelled only with other properties switched off (the unfocused run failed only under such labels)" % r["focus"]
         if mine:
             # distinct failing labels
             seen = {}
@@ -615,7 +672,7 @@ def check_property(prop, tier, only=None, jobs=None, use_cache=True, do_replay=T
                 elif do_replay and hangs and len(hangs) == len(unknown):
                     ok, path, det = replay_hang(h, prop)
                 elif do_replay:
-                    ok, path, det = replay_native(h, prop, wanted=[f["desc"] for f in unknown if f["kind"] != "hang"])
+                    ok, path, det = replay_native(h, prop, wanted=[f["desc"] for f in unknown if f["kind"] != "hang"], focus=r.get("focus"))
                     if not ok and hangs:
                         ok, path, det = replay_hang(h, prop)
                 else:
